@@ -1,5 +1,7 @@
 import TSSVerif.Model.Ctl
 import TSSVerif.Gen.Blocking
+import TSSVerif.Gen.Stmts
+import TSSVerif.Model.StmtsExpected
 /-!
 # C11 — KeyGen and Sign fail cleanly on timeout, cancellation or a vanished peer
 
@@ -183,5 +185,12 @@ example : (run { n := 3 } true [.share, .wake, .ctxDone, .wake]).2 = [.ret false
 example : (run { n := 3 } true [.share, .share, .wake, .commit, .ctxDone, .wake]).2 =
     [.sendCommit, .ret false] := by decide
 example : (run { n := 2 } true [.share, .commit, .reveal, .wake]).2 = [.sendCommit, .sendReveal, .ret true] := by decide
+
+
+/-- **The source the model was transcribed from is the current source**: the statements of `KeyGen`, `runDKG`, `Sign`, `prepareSigning`, `initializeHandlers`, `initializeSyncForSigning`, `registerWhileActive`, `ensureDKGNotRunning`, `runSigningProtocol`, regenerated from
+`/repo` on this run, are the committed ones (logging left out). A change of any of them — harmless or not — fails here
+first; the differential and monitored runs of this property are then the search for an input on which it fails. -/
+theorem source_as_modelled : TSSVerif.Gen.Stmts.orch = TSSVerif.Model.StmtsExpected.orch := by
+  decide +kernel
 
 end TSSVerif.Props.C11
